@@ -24,6 +24,15 @@ type vtFakeOnOff struct {
 	calls                 []string
 }
 
+// wait: the member named "waiter" only returns once the context it was given is cancelled.
+func (f *vtFakeOnOff) wait(ctx context.Context, name string) error {
+	if name != "waiter" {
+		return nil
+	}
+	<-ctx.Done()
+	return ctx.Err()
+}
+
 func (f *vtFakeOnOff) record(method, name string) bool {
 	f.mu.Lock()
 	defer f.mu.Unlock()
@@ -32,6 +41,9 @@ func (f *vtFakeOnOff) record(method, name string) bool {
 }
 
 func (f *vtFakeOnOff) GetOnOff(ctx context.Context, in *traits.GetOnOffRequest, opts ...grpc.CallOption) (*traits.OnOff, error) {
+	if err := f.wait(ctx, in.Name); err != nil {
+		return nil, err
+	}
 	if f.record("get", in.Name) {
 		return nil, status.Error(codes.Unavailable, "member down")
 	}
@@ -39,6 +51,9 @@ func (f *vtFakeOnOff) GetOnOff(ctx context.Context, in *traits.GetOnOffRequest, 
 }
 
 func (f *vtFakeOnOff) UpdateOnOff(ctx context.Context, in *traits.UpdateOnOffRequest, opts ...grpc.CallOption) (*traits.OnOff, error) {
+	if err := f.wait(ctx, in.Name); err != nil {
+		return nil, err
+	}
 	if f.record("update", in.Name) {
 		return nil, status.Error(codes.Unavailable, "member down")
 	}
@@ -107,5 +122,21 @@ func VT_C17_OnOffGroup() {
 	}
 	vt.Assert(len(fake.calls) <= n, "no-call-outside-the-members-or-with-another-method")
 	fake.mu.Unlock()
+	vt.Reach("done")
+}
+
+// Once the outcome is decided (a failure under All) the remaining member's context is cancelled: the group call returns
+// although that member only ever returns on cancellation, and nothing is left running.
+func VT_C17_OnOffGroupCancels() {
+	fake := &vtFakeOnOff{fail: map[string]bool{"m0": true}}
+	g := NewGroup(fake, "m0", "waiter")
+	var err error
+	if vt.Choose("op", 2) == 0 {
+		_, err = g.GetOnOff(context.Background(), &traits.GetOnOffRequest{Name: "group"})
+	} else {
+		_, err = g.UpdateOnOff(context.Background(), &traits.UpdateOnOffRequest{Name: "group", OnOff: &traits.OnOff{}})
+	}
+	vt.Assert(err != nil, "decided-failure-is-reported")
+	vt.NoLeak()
 	vt.Reach("done")
 }
